@@ -169,9 +169,9 @@ End Median.
 Section Run.
 Variable med : list R -> R.
 Definition median_oracle : callee :=
-  COracle (fun args kws w => match args with
-                             | [VArr l] => match reals_of l with Some xs => Ok (num (med xs), w) | None => Stuck "median: non-finite entry" end
-                             | _ => Stuck "median: argument" end).
+  COracle (fun args kws w => match args, kws with
+                             | [VArr l], [] => match reals_of l with Some xs => Ok (num (med xs), w) | None => Stuck "median: non-finite entry" end
+                             | _, _ => Stuck "median: arguments (one array, no keywords)" end).
 Definition G : fenv := FEnv (fun _ _ => None) (fun n => if String.eqb n "np.median" then Some median_oracle else None).
 Definition names_v (l : list string) : val := VList (map VStr l).
 Open Scope R_scope.
